@@ -416,3 +416,71 @@ sys.stdout.write(generate_code(p, [KernelType[k] for k in spec["kinds"]], Langua
     if p.returncode != 0:
         raise HarnessError("C generation with hook failed: " + p.stderr[-500:])
     return p.stdout
+
+
+def _generate_llvm_with_cap(comp, fn_names, cap):
+    script = r"""
+import json, sys
+from tensora.expression import parse_assignment
+from tensora.format import parse_format
+from tensora.problem import make_problem
+from tensora.generate import generate_code, Language
+from tensora.kernel_type import KernelType
+spec = json.load(sys.stdin)
+a = parse_assignment(spec["assignment"]).unwrap()
+p = make_problem(a, {k: parse_format(v).unwrap() for k, v in spec["formats"].items()}).unwrap()
+sys.stdout.write(generate_code(p, [KernelType[k] for k in spec["kinds"]], Language.llvm).unwrap())
+"""
+    env = dict(os.environ)
+    env["PYTHONPATH"] = os.path.join(REPO, "src")
+    if cap:
+        env["TENSORA_VERIF_INITIAL_CAPACITY"] = str(cap)
+    else:
+        env.pop("TENSORA_VERIF_INITIAL_CAPACITY", None)
+    kinds = sorted(set(fn_names), key=["assemble", "compute", "evaluate"].index)
+    p = subprocess.run([sys.executable, "-c", script],
+                       input=json.dumps({"assignment": comp.request.assignment,
+                                         "formats": dict(comp.request.formats), "kinds": kinds}),
+                       capture_output=True, text=True, env=env, timeout=120)
+    if p.returncode != 0:
+        raise HarnessError("LLVM generation failed: " + p.stderr[-500:])
+    return p.stdout
+
+
+def asan_run_llvm(comp, fn_names, decoded, timeout=120):
+    """The emitted LLVM module compiled by clang with AddressSanitizer (functions get the
+    sanitize_address attribute) and driven by the same C driver as the C replay."""
+    import re as _re
+
+    text = _generate_llvm_with_cap(comp, fn_names, decoded.get("cap0"))
+    text = _re.sub(r'^(define [^\n]*\))\s*$', r'\1 sanitize_address', text, flags=_re.M)
+    n = len(comp.formats)
+    protos = "".join(f"int32_t {k}({', '.join(['taco_tensor_t*'] * n)});\n" for k in sorted(set(fn_names)))
+    src = c_driver(comp, fn_names, decoded, protos)
+    with tempfile.TemporaryDirectory(prefix="verif_asanll_") as td:
+        ll = os.path.join(td, "k.ll")
+        with open(ll, "w") as f:
+            f.write(text)
+        cfile = os.path.join(td, "d.c")
+        with open(cfile, "w") as f:
+            f.write(src)
+        exe = os.path.join(td, "k")
+        c1 = subprocess.run(["clang", "-c", "-x", "ir", ll, "-fsanitize=address", "-O0", "-Wno-override-module", "-o",
+                             os.path.join(td, "k.o")], capture_output=True, text=True)
+        if c1.returncode != 0:
+            return {"status": "compile-error", "stderr": c1.stderr[-2000:]}
+        c2 = subprocess.run(["clang", "-std=gnu11", "-g", "-fsanitize=address", "-w", cfile, os.path.join(td, "k.o"), "-o", exe],
+                            capture_output=True, text=True)
+        if c2.returncode != 0:
+            return {"status": "compile-error", "stderr": c2.stderr[-2000:]}
+        env = dict(os.environ)
+        env["ASAN_OPTIONS"] = "detect_leaks=0:allocator_may_return_null=1"
+        try:
+            rp = subprocess.run([exe], capture_output=True, text=True, timeout=timeout, env=env)
+        except subprocess.TimeoutExpired:
+            return {"status": "timeout"}
+        res = {"status": "ok" if rp.returncode == 0 else "sanitizer" if "Sanitizer" in rp.stderr else "crash",
+               "returncode": rp.returncode, "stdout": rp.stdout[-4000:], "stderr": rp.stderr[-3000:]}
+        if rp.returncode == 0:
+            res["output"] = _parse_c_dump(rp.stdout, comp)
+        return res
